@@ -237,7 +237,9 @@ CLAIMS = {
               "rows). Tie: generated histories over pools of queries sharing variables and expression objects - one-variable pools over a "
               "logging one-shot iterator compared EXACTLY after every step (rows, pulled, memoised), multi-variable pools (projections, "
               "shared sub-expressions in other positions, rule inference) compared step by step with the answers on untouched data, "
-              "caching off and on; user data checked unmodified."),
+              "caching off and on; user data checked unmodified. C04_dedup_state_reset: over the D-model (Dedup.v) every evaluation of a history "
+              "of complete / abandoned / aborted evaluations of one query object starts from the empty de-duplication state - the reset in the "
+              "finally clause of An.evaluate / The.evaluate is read from the source by the translator on every run."),
         design='7/C04', technique='Coq proof (invariant over operation histories on the lazy-domain model; extensionality of the evaluator in the domains) + step-wise correspondence on histories',
         note=BASE_NOTE + " PARTIAL in one respect, stated plainly: the per-node de-duplication sets and the operator result caches are NOT state of the proved model - that they are reset / cleared by every evaluation however it ends (An.evaluate / The.evaluate `finally`) is covered by the history correspondence and by C05, not by a theorem; how far a PARTIAL multi-variable evaluation advances each domain is not modelled (C04_any_advance quantifies over every advance). Three defects were repaired in /repo (reset in finally, concluded_before, repeated domain objects)."),
     'C07': dict(
